@@ -96,6 +96,13 @@ def shared_file_world(seed, i):
 def world_of(seed, i):
     if i % 5 == 4:
         return shared_file_world(seed, i)
+    if i % 5 == 3:
+        # torrents with empty files inside their pieces; in half of these worlds no zero-length file exists anywhere on
+        # disk, so the empty files have no candidate list at all and are created by whichever worker writes their piece
+        w = runprops.world_for("sched-empties", seed, i, allow_shared=False, empties=True)
+        if i % 10 == 3:
+            w.remove_files(lambda rel, data: len(data) == 0)
+        return w
     return runprops.world_for("sched", seed, i, allow_shared=False)
 
 
